@@ -202,6 +202,51 @@ def _check_wrapped_impl(args) -> dict:
 	return {'failures': failures, 'nodes': nodes}
 
 
+def _check_own_parser_carets(args) -> dict:
+	return _guard(_check_own_parser_carets_impl, args)
+
+
+def _check_own_parser_carets_impl(args) -> dict:
+	"""the own parser's error collector: the quoted line is the line of the cause token and the carets lie under exactly that token"""
+	texts, = args
+	import re
+	from harness import compat
+	compat.patch_rules()
+	from data.syntax.py_rules import py_rules
+	from rogw.tranp.errors import Errors
+	from rogw.tranp.implements.syntax.tranp.syntax import SyntaxParser
+	from rogw.tranp.implements.syntax.tranp.tokenizer import Tokenizer
+	rules = py_rules()
+	failures, nodes = [], 0
+	for text in texts:
+		try:
+			SyntaxParser(rules, Tokenizer()).parse(text, 'entry')
+			continue
+		except Errors.Syntax as e:
+			summary = str(e)
+		except Exception:
+			continue  # C07 / C11 territory
+		m = re.search(r"token: (.*)\n\((\d+)\) >>> (.*)\n( +)(\^+)$", summary)
+		if not m:
+			continue
+		import ast as _ast
+		try:
+			token = _ast.literal_eval(m.group(1))
+		except Exception:
+			continue
+		line_no, quoted, pad, carets = int(m.group(2)), m.group(3), m.group(4), m.group(5)
+		if token.startswith('\\') or '\n' in token or token == '':
+			continue  # block markers and line breaks have no text of their own on the line
+		nodes += 1
+		begin = len(pad) - (len(str(line_no)) + 7)
+		lines = text.split('\n')
+		if not (1 <= line_no <= len(lines)) or lines[line_no - 1] != quoted:
+			failures.append({'clause': 'OwnParserQuotation', 'detail': f'{text!r}: line {line_no} is quoted as {quoted!r}', 'text': text, 'kind': 'own-parser:line'})
+		elif quoted[begin:begin + len(carets)] != token:
+			failures.append({'clause': 'OwnParserQuotation', 'detail': f'{text!r}: the carets mark {quoted[begin:begin + len(carets)]!r} (columns {begin}..{begin + len(carets)}), the cause token is {token!r}', 'text': text, 'kind': 'own-parser:caret'})
+	return {'failures': failures, 'nodes': nodes}
+
+
 def _check_stmt_batch(args) -> dict:
 	return _guard(_check_stmt_batch_impl, args)
 
@@ -315,16 +360,22 @@ def run(ctx: Ctx) -> int:
 		r2 = list(ex.map(_check_stmt_batch, [(stmts[i:i + 60], i) for i in range(0, len(stmts), 60)]))
 		binary = [c for c in cases if c['ast']['k'] in ('bin', 'cmp', 'bool')][:400 if quick else 2000]
 		r4 = list(ex.map(_check_wrapped, [(binary[i:i + 40], i) for i in range(0, len(binary), 40)]))
+		# texts the own parser rejects: a stray token inserted into / removed from valid statements, one or several lines, tab indents
+		bad = []
+		for c in cases[:200]:
+			t = c['text']
+			bad += [f'x = {t} )\n', f'x = = {t}\n', f'if a:\n\tx = {t} ]\n', f'if a:\n\ty = 1\n\tx = ( {t}\nz = 2\n', f'x = {t}\ny = 1 2\n']
+		r5 = list(ex.map(_check_own_parser_carets, [(bad[i::16],) for i in range(16)]))
 		from harness import real_modules
 		modules = real_modules.QUICK if quick else real_modules.LOAD_OK
 		r3 = list(ex.map(_real_module, modules))
-	failures = [f for r in r1 + r2 + r3 + r4 for f in r['failures']]
+	failures = [f for r in r1 + r2 + r3 + r4 + r5 for f in r['failures']]
 	# the harness's MarkRange is the specification's (table evaluated by TLC)
 	mres = tlc.run('PySrcEmit', 'PySrc_1.cfg', workers=1, timeout=300)
 	for row in (json.loads(x) for x in mres.lines('MARK ')):
 		if list(mark_range(0, row['bc'], 0 if row['same'] else 1, row['ec'], row['linelen'])) != list(row['range']):
 			raise Machinery(f'harness mark_range and PySrc.MarkRange disagree on {row}')
-	ctx.log(f'wrapped layouts: {sum(r["nodes"] for r in r4)} nodes of multi-line programs quoted by the MarkRange rule')
+	ctx.log(f'wrapped layouts: {sum(r["nodes"] for r in r4)} nodes of multi-line programs quoted by the MarkRange rule; own parser: {sum(r["nodes"] for r in r5)} rejected texts with the carets under the cause token')
 	nodes = sum(r['nodes'] for r in r1)
 	ctx.log(f'{nodes} expression nodes (fresh + restored from the cache encoding), {len(stmts)} statements, {sum(r["nodes"] for r in r3)} nodes of {len(modules)} real modules: {len(failures)} discrepancies')
 	groups: dict[str, list] = {}
